@@ -323,7 +323,7 @@ impl Check for C06 {
         crate::runner::scaled(2_500_000, tier)
     }
     fn generate(r: &mut Rng, tier: Tier) -> Case {
-        let (ml, mc) = if r.chance(1, if tier == Tier::Thorough { 25 } else { 120 }) { (80, 40) } else if tier == Tier::Thorough && r.chance(1, 3) { (16, 10) } else { (12, 8) };
+        let (ml, mc) = if r.chance(1, if tier == Tier::Thorough { 150 } else { 500 }) { *r.pick(&[(150, 70), (300, 140), (600, 300), (300, 600)]) } else if r.chance(1, if tier == Tier::Thorough { 25 } else { 120 }) { (80, 40) } else if tier == Tier::Thorough && r.chance(1, 3) { (16, 10) } else { (12, 8) };
         // parallel pair, sometimes broken
         let n = r.range(0, mc);
         let len = if n == 0 { 0 } else { r.range(0, ml) };
@@ -410,6 +410,8 @@ impl Check for C06 {
         fp.add((c.a * 1000 + c.b * 10 + c.x) as u64);
         ex.workload_fp = fp.0;
         ex.nontrivial = !c.f.0.is_empty() || !c.q.0.is_empty();
+        ex.probe_if(c.f.0.len() >= 64 || c.f.1 >= 64, "size_64_or_more");
+        ex.probe_if(c.f.0.len() >= 256 || c.f.1 >= 256, "size_256_or_more");
         // the workload must respect the harness's own preconditions (tables within codomains, q surjective)
         let ok_fun = |f: &Fun| f.0.iter().all(|v| *v < f.1);
         let surj = {
